@@ -358,6 +358,19 @@ func c13LogFirst(c *Ctx) {
 		site := findSite(f, pm.add)
 		c.check(site != nil && site.Block() == f.Blocks[0], "log-first", pm.fn+": "+pm.add+" unconditional", p.Pos(fnPos(f)),
 			"the message is recorded in the vote counter before any early return", "the message is no longer recorded unconditionally: replayed messages that precede their height's Start entry would be dropped")
+		// counted ⇒ logged: an empty action list (no WriteWAL) is returned only for a message the counter refused (duplicate) or
+		// before the height has started (the message is logged when it is re-processed at the start of its height). Seeded change
+		// C13-K returns nil for a counted prevote of an earlier round: it can complete the quorum of line 28, the validator
+		// prevotes on it, crashes, and the replay — which lacks the vote — prevotes nil for the same height and round.
+		for _, r := range returnsOf(f) {
+			if len(r.Results) != 1 || !isNilConst(r.Results[0]) {
+				continue
+			}
+			d := p.mustHoldAt(r.Ret)
+			ok, miss := everyDisjunctHas(d, []string{"^!", pm.add + "("}, []string{"^!", "isHeightStarted"})
+			c.check(ok, "log-first", pm.fn+": nothing returned only for uncounted messages", p.Pos(posOf(r.Ret, f)), "an empty action list only when the counter refused the message or the height has not started",
+				"a message that the vote counter accepted is answered with an empty action list — it is counted but never written to the WAL ("+clip(miss, 200)+"): rules evaluated later rest on a vote the replay will not see")
+		}
 	}
 	c.floor("log-first", 8)
 }
